@@ -56,9 +56,23 @@ func checkC02(r *harness.Run) harness.Coverage {
 	chainDocs := append(append([]interface{}{}, projDocs...), collisionDocs...)
 	chainDocs = append(chainDocs, univ.Js(`{"a":{"x":{"a":{"a":[1,2]}},"y":{"a":{"a":[3]}}}}`, `{"a":{"x":{"a":[{"a":1},{"a":0}]},"y":{"a":[{"a":2}]}}}`, `{"a":[{"a":[{"a":[1]},{"a":[]}]},{"a":[{"a":[2,3]}]}]}`, `{"a":{"a":{"a":{"a":{"a":1}}}}}`, `[[[1,2],[3]],[[4]]]`)...)
 	st.add(conform(r, chains, chainDocs, conformOpts{}))
+	// a projection piped into a second projection whose right-hand side maps null to non-null: the pipe
+	// must finish the first projection (drop its nulls) before the second starts
+	var left []exprCase
+	gl := univ.NewGen(&univ.Fragment{Idents: univ.Tks("a", "b"), Leaves: univ.Tks("@"), Nums: univ.Tks("0"), Slices: [][]model.Tok{univ.Tks("1", ":")},
+		Star: true, WildIdx: true, Flatten: true, Filter: true, Dot: true, FilterConds: [][]model.Tok{univ.Tks("a"), univ.Tks("@")}, Weight: univ.StructuralWeight})
+	left = buildExprs(gl, 5, func(_ []model.Tok, ast *model.Node) bool { return univ.HasProjection(ast) })
+	var piped []exprCase
+	for _, l := range left {
+		for _, rhs := range []string{"[*].type(@)", "[].type(@)", "[*].not_null(@, `1`)", "[?@ == `null`]", "[*].to_array(@)", "*.type(@)", "[*].a", "[*].[a]", "[::-1].type(@)", "[?!a].type(@)", "[0]", "[*]", "[]", "length(@)", "[*].b | [*].type(@)"} {
+			piped = append(piped, exprFromText(l.text+" | "+rhs))
+		}
+	}
+	st.add(conform(r, piped, chainDocs, conformOpts{}))
+	r.Note("piped_projection_pairs", len(piped))
 	r.Note("postfix_chains", len(chains))
 	r.Note("postfix_chain_weight", chainW)
-	finishConform(r, st, len(exprs)+len(chains), len(docs))
+	finishConform(r, st, len(exprs)+len(chains)+len(piped), len(docs))
 	sampleExprs(r, exprs, docs)
 	return harness.Coverage{Exhaustive: true, Bounds: map[string]interface{}{"expression_weight": maxW, "documents": len(docs)}, Outcomes: distinctOutcomes(st)}
 }
